@@ -827,7 +827,10 @@ bool Annotator::assignAllIds(ModelPtr &model)
     if (model == nullptr) {
         auto issue = Issue::IssueImpl::create();
         issue->mPimpl->setDescription("The Model supplied is a nullptr. No action has been taken.");
+        issue->mPimpl->setLevel(Issue::Level::WARNING);
         issue->mPimpl->setReferenceRule(Issue::ReferenceRule::ANNOTATOR_NULL_MODEL);
+        pFunc()->removeAllIssues();
+        pFunc()->addIssue(issue);
         return false;
     }
     setModel(model);
